@@ -439,3 +439,88 @@ def rule_copy_fresh(prog: Program, report: Report) -> None:
             report.violate("RF-copy", fn, r, f"Mapping.copy shares {bad} with its source", f"the returned mapping's {bad} list(s) are the source's own list object(s): appending a map or registering a mirror on one side changes the other (a mapping being appended to is the only thing allowed to change, and only itself)", what="Mapping.copy copies maps and mirror")
         else:
             report.ob("RF-copy", key, "the copy gets new `maps` and `mirror` lists")
+
+
+# -------------------------------------------------------------------- RG-nfa
+def rule_nfa_loops(prog: Program, report: Report) -> None:
+    """Thompson construction: a repetition loops back on a state of its own.
+    `connect(compile(E, S), S)` makes S the loop state; every definition of S
+    that reaches the call must be a fresh `node()` - if S may still be the
+    incoming state `from_` (shared with the alternatives of an enclosing choice
+    or the continuation of an enclosing repetition) the repeated body leaks
+    into its context (`a | b{0,}` would accept `b a`)."""
+    from .rf import Fresh
+
+    report.rules.append("RG-nfa")
+    key = "prosemirror/model/content.py::nfa.compile"
+    fn = prog.func(key)
+    fr = Fresh(prog, set())
+    n = 0
+    for c in walk_own(fn.node):
+        if not (isinstance(c, ast.Call) and isinstance(c.func, ast.Name) and c.func.id == "connect" and len(c.args) == 2):
+            continue
+        body, target = c.args
+        if not (isinstance(body, ast.Call) and isinstance(body.func, ast.Name) and body.func.id == "compile" and len(body.args) == 2):
+            continue
+        if not (isinstance(target, ast.Name) and isinstance(body.args[1], ast.Name) and body.args[1].id == target.id):
+            continue  # not a loop-back edge
+        n += 1
+        defs = fr.reaching(fn, target.id, c)
+        text = " ".join(src(c).split())
+        if defs is None:
+            if target.id in fn.params():
+                defs = [ast.Name(id="<parameter>", ctx=ast.Load())]
+            else:
+                raise AnalysisError(f"RG-nfa: cannot determine the definitions of `{target.id}` reaching `{text}`")
+        def is_node_call(d: ast.AST, depth: int = 0) -> bool:
+            if isinstance(d, ast.Call) and isinstance(d.func, ast.Name) and d.func.id == "node":
+                return True
+            if isinstance(d, ast.Name) and depth < 2 and d.id not in fn.params():
+                from .rf import _local_defs
+
+                ds = _local_defs(fn.node, d.id)
+                return bool(ds) and all(is_node_call(x, depth + 1) for x in ds)
+            return False
+
+        bad = [d for d in defs if not is_node_call(d)]
+        if bad:
+            report.violate("RG-nfa", fn, c, f"`{text}` may loop on a shared state", f"the loop state `{target.id}` can still be `{src(bad[0])}` here (definitions reaching the call: {[src(d) for d in defs]}); a repetition must loop on a state allocated for it with node(), otherwise after one iteration every other edge leaving that state is available again", what="repetition loops on its own state")
+        else:
+            report.ob("RG-nfa", key, f"`{text}`: loop state allocated by node()")
+    report.count("RG-nfa loop-back edges", n)
+    report.expect_at_least("RG-nfa", "loop-back edges", n, 3)
+
+
+def rule_rec_guard(prog: Program, report: Report) -> None:
+    """A directly recursive closure that walks a graph (automaton states)
+    must test, before every recursive call, that the target was not visited:
+    otherwise a cycle recurses forever (RecursionError at schema build)."""
+    from ..gates import need_holds
+
+    report.rules.append("RL-rec")
+    n = 0
+    GRAPH_WALKERS = (
+        # closures that follow automaton edges (ContentMatch.next / NFA edge lists), which form cycles;
+        # nfa.compile and matches_context.match recurse on a finite tree / a decreasing index instead
+        "prosemirror/model/content.py::null_from.scan",
+        "prosemirror/model/content.py::dfa.explore",
+        "prosemirror/model/content.py::ContentMatch.__str__.scan",
+        "prosemirror/model/content.py::ContentMatch.fill_before.search",
+        "prosemirror/model/from_dom.py::mark_may_apply.scan",
+    )
+    for key in GRAPH_WALKERS:
+        fn = prog.func(key)
+        calls = [c for c in walk_own(fn.node) if isinstance(c, ast.Call) and isinstance(c.func, ast.Name) and c.func.id == fn.name]
+        if not calls:
+            continue
+        v = view(prog, fn.key)
+        for c in calls:
+            n += 1
+            text = " ".join(src(c).split())[:60]
+            ok = need_holds(v, c, ["re:.* not in \\w+", "re:falsy\\(\\w+\\.get\\(.*\\)\\)"])
+            if ok:
+                report.ob("RL-rec", fn.key, f"`{text}` is guarded by a visited test")
+            else:
+                report.violate("RL-rec", fn, c, f"unguarded recursive call `{text}`", f"`{fn.qual}` walks a graph that can contain cycles (repetitions create back edges) and recurses here without testing that the target was already visited: a cycle through this edge recurses until RecursionError", what="recursive graph walks test a visited set before recursing")
+    report.count("RL-rec recursive calls in graph-walking closures", n)
+    report.expect_at_least("RL-rec", "recursive calls", n, 5)
